@@ -236,6 +236,23 @@ pub fn encrypt_with_k(pk: &Pt<Fp>, msg: &[u8], k: &BigUint) -> Option<Ciphertext
     Some(Ciphertext { c1, c2, c3 })
 }
 
+/// A conforming ciphertext whose C1 is a *given* curve point (an encryptor is free to end up with any point of the group):
+/// the shared point is [d]C1, computed with the recipient's private key. None if C1 is not a finite curve point or the KDF output is zero.
+pub fn encrypt_to_c1(d: &BigUint, c1: &Pt<Fp>, msg: &[u8]) -> Option<Ciphertext> {
+    let pr = params();
+    if c1.is_none() || !pr.curve.on_curve(c1) {
+        return None;
+    }
+    let (x2, y2) = xy(&pr.curve.mul(d, c1))?;
+    let t = kdf(&[&x2[..], &y2[..]].concat(), msg.len());
+    if t.iter().all(|b| *b == 0) {
+        return None;
+    }
+    let c2: Vec<u8> = msg.iter().zip(t.iter()).map(|(a, b)| a ^ b).collect();
+    let c3 = sm3_parts(&[&x2, msg, &y2]);
+    Some(Ciphertext { c1: c1.clone(), c2, c3 })
+}
+
 /// Split an encoded ciphertext; None if the framing is impossible (too short, bad C1).
 pub fn parse_ciphertext(ct: &[u8], compressed: bool, c1c3c2: bool) -> Option<Ciphertext> {
     let c1len = if compressed { 33 } else { 65 };
